@@ -1916,6 +1916,7 @@ def authz_l3(run, driver, label="L3 random program"):
     cases = gen_cases(run, driver, "authz")
     res = core.run_driver(driver, "authz", cases, per_case_timeout=120)
     events, src = [], []
+    nlater = 0
     for c in cases:
         o = res[c["id"]]
         if o.get("crash") or "obs" not in o:
@@ -1931,6 +1932,25 @@ def authz_l3(run, driver, label="L3 random program"):
                        "v": ob[2].get("v"), "world": ob[3].get("rows") or []})
         src.append((c, o))
         run.count((c["id"], ob[2].get("v")) if tok["blocks"] and c["script"][1]["az"]["p"] else None)
+        # the documented workflow continues after Authorize: a query sees exactly the authority-level facts (validated by TLC
+        # below), and a second Authorize gives the same outcome and leaves the same facts (only judged when the first
+        # evaluation completed: ok / denied / nomatch)
+        if len(ob) >= 7 and ob[2].get("v") in ("ok", "denied", "nomatch"):
+            later = []
+            q = c["script"][4]["q"]
+            exp = sorted(tuple(f[1:]) for f in rows(ob[3].get("rows")) if f[0] == q["b"][0][0] and len(f) == len(q["b"][0]))
+            if ob[4].get("v") != "ok" or rows(ob[4].get("rows")) != exp:
+                later.append("Query %s after Authorize = %s %s, the authority-level facts are %s" % (rule_text(q), ob[4].get("v"), rows(ob[4].get("rows")), exp))
+            if vclass(ob[5].get("v")) != ob[2].get("v"):
+                later.append("second Authorize = %s, first = %s" % (ob[5].get("v"), ob[2].get("v")))
+            elif rows(ob[6].get("rows")) != rows(ob[3].get("rows")):
+                later.append("authority-level facts after the second Authorize = %s, after the first = %s" % (rows(ob[6].get("rows")), rows(ob[3].get("rows"))))
+            if later and nlater < 10:
+                nlater += 1
+                inst = {"auth": tok["auth"], "blocks": tok["blocks"], "az": c["script"][1]["az"]}
+                rc = confirm_case(driver, "authz", c, o, ("obs",))
+                run.report({"what": "after-authorize", "instance": inst_text(inst)[:200]}, wp(c, rc), "authzgen",
+                           "%s (token via %s): %s: %s" % (label, tok["via"], inst_text(inst), "; ".join(later)), (lambda rc=rc: rc is not None))
     bad = validate_traces(run, "TraceAuthz", "TraceAuthz", events)
     for b in bad[:20]:
         c, o = src[b]
@@ -1959,6 +1979,12 @@ def replay_authzgen(run, body):
     ev = [{"tok": {"auth": tok["auth"], "blocks": tok["blocks"]}, "az": c["script"][1]["az"], "v": o["obs"][2].get("v"), "world": o["obs"][3].get("rows") or []}]
     if validate_traces(run, "TraceAuthz", "TraceAuthz", ev, chunks=1):
         run.report(body["sig"], c, "authzgen", "replayed: TraceAuthz rejects the observation")
+    ob = o["obs"]
+    if len(ob) >= 7 and ob[2].get("v") in ("ok", "denied", "nomatch"):
+        q = c["script"][4]["q"]
+        exp = sorted(tuple(f[1:]) for f in rows(ob[3].get("rows")) if f[0] == q["b"][0][0] and len(f) == len(q["b"][0]))
+        if ob[4].get("v") != "ok" or rows(ob[4].get("rows")) != exp or vclass(ob[5].get("v")) != ob[2].get("v") or rows(ob[6].get("rows")) != rows(ob[3].get("rows")):
+            run.report(body["sig"], c, "authzgen", "replayed: query / second Authorize after Authorize disagree with the first evaluation")
 
 
 REPLAYERS["authzgen"] = replay_authzgen
